@@ -186,35 +186,47 @@ func rlpSeedBytes(kind int, n int64) []byte {
 
 // ------------------------------------------------------------ mutations
 
+// ladder: go-wire varint length prefixes of growing magnitude. The steps of a
+// ladder are offered at the same offset in this order; once one step made the
+// decoder allocate beyond the bound (reported), the larger steps at the same
+// offset and limit are skipped: they would show the same unchecked length prefix
+// again, at the cost of a dead child each.
+var ladder = [][]byte{
+	{0x02, 0xff, 0xff},                                     // 64 Ki
+	{0x03, 0x10, 0x00, 0x01},                               // 1 Mi + 1
+	{0x03, 0xff, 0xff, 0xff},                               // 16 Mi
+	{0x04, 0x40, 0x00, 0x00, 0x00},                         // 1 Gi
+	{0x04, 0xff, 0xff, 0xff, 0xff},                         // 4 Gi
+	{0x06, 0x01, 0x00, 0x00, 0x00, 0x00, 0x00},             // 2^40
+	{0x08, 0x00, 0x00, 0x00, 0x01, 0x00, 0x00, 0x00, 0x00}, // 2^32, non-minimal
+	{0x08, 0x7f, 0xff, 0xff, 0xff, 0xff, 0xff, 0xff, 0xff}, // MaxInt64
+}
+var headLadder = [][]byte{ladder[0], ladder[2], ladder[4], ladder[7]}
+
+// other length / type-prefix patterns, each an independent mutant
 var bombs = [][]byte{
-	{0x04, 0xff, 0xff, 0xff, 0xff},                                 // 4 Gi
-	{0x04, 0x7f, 0xff, 0xff, 0xff},                                 // 2 Gi - 1
-	{0x04, 0x40, 0x00, 0x00, 0x00},                                 // 1 Gi
-	{0x03, 0xff, 0xff, 0xff},                                       // 16 Mi
-	{0x03, 0x10, 0x00, 0x01},                                       // 1 Mi + 1
-	{0x02, 0xff, 0xff},                                             // 64 Ki
-	{0x08, 0x7f, 0xff, 0xff, 0xff, 0xff, 0xff, 0xff, 0xff},         // MaxInt64
-	{0x08, 0x80, 0x00, 0x00, 0x00, 0x00, 0x00, 0x00, 0x00},         // MinInt64 as unsigned
-	{0x08, 0x00, 0x00, 0x00, 0x01, 0x00, 0x00, 0x00, 0x00},         // 2^32, non-minimal
-	{0x05, 0x01, 0x00, 0x00, 0x00, 0x00},                           // 2^32
-	{0x06, 0x01, 0x00, 0x00, 0x00, 0x00, 0x00},                     // 2^40
-	{0xf8, 0x7f, 0xff, 0xff, 0xff, 0xff, 0xff, 0xff, 0xff},         // -MaxInt64
-	{0xf1, 0x01},                                                   // -1
-	{0xf0},                                                         // negative zero
-	{0x09, 0x01, 0x01, 0x01, 0x01, 0x01, 0x01, 0x01, 0x01, 0x01},   // size byte 9
-	{0xbb, 0xff, 0xff, 0xff, 0xff},                                 // RLP string, 4-byte length 4 Gi
-	{0xbf, 0x7f, 0xff, 0xff, 0xff, 0xff, 0xff, 0xff, 0xff},         // RLP string, 8-byte length
-	{0xfb, 0xff, 0xff, 0xff, 0xff},                                 // RLP list, 4-byte length
-	{0xff, 0x7f, 0xff, 0xff, 0xff, 0xff, 0xff, 0xff, 0xff},         // RLP list, 8-byte length
-	{0xb9, 0xff, 0xff},                                             // RLP string 64 Ki
-	{0xf9, 0xff, 0xff},                                             // RLP list 64 Ki
+	{0x08, 0x80, 0x00, 0x00, 0x00, 0x00, 0x00, 0x00, 0x00},       // MinInt64 as unsigned
+	{0xf8, 0x7f, 0xff, 0xff, 0xff, 0xff, 0xff, 0xff, 0xff},       // -MaxInt64
+	{0xf1, 0x01},                                                 // -1
+	{0xf0},                                                       // negative zero
+	{0x09, 0x01, 0x01, 0x01, 0x01, 0x01, 0x01, 0x01, 0x01, 0x01}, // size byte 9
+}
+var rlpBombs = [][]byte{
+	{0xb9, 0xff, 0xff},                                     // RLP string 64 Ki
+	{0xf9, 0xff, 0xff},                                     // RLP list 64 Ki
+	{0xba, 0xff, 0xff, 0xff},                               // RLP string 16 Mi
+	{0xbb, 0xff, 0xff, 0xff, 0xff},                         // RLP string, 4-byte length 4 Gi
+	{0xfb, 0xff, 0xff, 0xff, 0xff},                         // RLP list, 4-byte length
+	{0xbf, 0x7f, 0xff, 0xff, 0xff, 0xff, 0xff, 0xff, 0xff}, // RLP string, 8-byte length
+	{0xff, 0x7f, 0xff, 0xff, 0xff, 0xff, 0xff, 0xff, 0xff}, // RLP list, 8-byte length
 }
 
 var substBytes = []byte{0x00, 0x01, 0x02, 0x03, 0x04, 0x08, 0x10, 0x11, 0x14, 0x20, 0x7f, 0x80, 0xf1, 0xff}
 
 type mutant struct {
-	kind string
-	make func() []byte
+	kind   string
+	steps  []func() []byte // one input per step; >1 only for ladders
+	ladder bool
 }
 
 func overwrite(seed []byte, off int, pat []byte) []byte {
@@ -306,21 +318,29 @@ func sortStrings(s []string) {
 
 // mutants builds the fixed mutant list of one group (materialised lazily).
 // full: exhaustive offsets for short seeds and no sampling; otherwise a seeded
-// sample of `sample` mutants.
+// sample worth about `sample` inputs. headSweep: a ladder at every offset of the
+// first 64 bytes, never sampled away.
 func mutants(rng *rand.Rand, d *decoder, seed, other []byte, full, headSweep bool, sample int) []mutant {
 	var ms []mutant
-	add := func(kind string, f func() []byte) { ms = append(ms, mutant{kind, f}) }
+	add := func(kind string, f func() []byte) { ms = append(ms, mutant{kind: kind, steps: []func() []byte{f}}) }
+	addLadder := func(kind string, o int, pats [][]byte, insert bool) {
+		m := mutant{kind: kind, ladder: true}
+		for _, p := range pats {
+			p := p
+			if insert {
+				m.steps = append(m.steps, func() []byte { return insertAt(seed, o, p) })
+			} else {
+				m.steps = append(m.steps, func() []byte { return overwrite(seed, o, p) })
+			}
+		}
+		ms = append(ms, m)
+	}
 	add("valid", func() []byte { return seed })
 	add("empty", func() []byte { return []byte{} })
 	L := len(seed)
 	if headSweep && d.codec == "binary" {
-		// every offset of the first 64 bytes x the key huge-length patterns, never sampled away:
-		// the first length prefixes of a message are hit whatever the seed looks like
 		for o := 0; o < L && o < 64; o++ {
-			for _, p := range [][]byte{bombs[3], bombs[0], bombs[6], bombs[5]} {
-				o, p := o, p
-				add("length-bomb-head", func() []byte { return overwrite(seed, o, p) })
-			}
+			addLadder("length-bomb-head", o, headLadder, false)
 		}
 	}
 	protected := len(ms)
@@ -355,13 +375,21 @@ func mutants(rng *rand.Rand, d *decoder, seed, other []byte, full, headSweep boo
 	}
 	if d.codec != "json" {
 		for _, o := range offs(exh) {
-			for _, p := range bombs {
-				rlpShaped := p[0] >= 0xb0 && p[0] != 0xf0 && p[0] != 0xf1 && p[0] != 0xf8
-				if rlpShaped != (d.codec == "rlp") && rng.Intn(4) != 0 {
-					continue // RLP-shaped prefixes mostly for RLP decoders, go-wire varints mostly for go-wire
-				}
+			if d.codec == "binary" || rng.Intn(4) == 0 {
+				addLadder("length-bomb", o, ladder, false)
+			}
+			pats := bombs
+			if d.codec == "rlp" {
+				pats = rlpBombs
+			}
+			for _, p := range pats {
 				o, p := o, p
-				add("length-bomb", func() []byte { return overwrite(seed, o, p) })
+				add("length-pattern", func() []byte { return overwrite(seed, o, p) })
+			}
+			if d.codec == "binary" && rng.Intn(4) == 0 {
+				p := rlpBombs[rng.Intn(len(rlpBombs))]
+				o := o
+				add("length-pattern", func() []byte { return overwrite(seed, o, p) })
 			}
 		}
 	}
@@ -377,13 +405,17 @@ func mutants(rng *rand.Rand, d *decoder, seed, other []byte, full, headSweep boo
 		bit := rng.Intn(L * 8)
 		add("bit-flip", func() []byte { b := append([]byte{}, seed...); b[bit/8] ^= 1 << uint(bit%8); return b })
 	}
-	for i := 0; i < exh/2; i++ {
+	for i := 0; i < exh/2 && d.codec != "json"; i++ {
 		o := 0
 		if L > 0 {
 			o = rng.Intn(L + 1)
 		}
-		p := bombs[rng.Intn(len(bombs))]
-		add("insert-bomb", func() []byte { return insertAt(seed, o, p) })
+		if d.codec == "rlp" {
+			p := rlpBombs[rng.Intn(len(rlpBombs))]
+			add("insert-bomb", func() []byte { return insertAt(seed, o, p) })
+		} else {
+			addLadder("insert-bomb", o, headLadder, true)
+		}
 	}
 	for _, n := range []int{1, 2, 3, 5, 9, 17, 64, 300, 5000} {
 		n := n
@@ -414,11 +446,17 @@ func mutants(rng *rand.Rand, d *decoder, seed, other []byte, full, headSweep boo
 		add("json-deep", func() []byte { return []byte(strings.Repeat("[", 20000)) })
 		add("json-deep-obj", func() []byte { return []byte(strings.Repeat("{\"a\":", 5000)) })
 	}
-	if !full && len(ms) > sample+protected {
+	if !full {
 		// keep the protected head (valid, empty, head sweep) and a seeded sample of the rest
+		// worth about `sample` inputs (a ladder counts with all its steps)
 		rest := ms[protected:]
 		rng.Shuffle(len(rest), func(i, j int) { rest[i], rest[j] = rest[j], rest[i] })
-		ms = ms[:protected+sample]
+		n, steps := 0, 0
+		for n < len(rest) && steps < sample {
+			steps += len(rest[n].steps)
+			n++
+		}
+		ms = ms[:protected+n]
 	}
 	return ms
 }
@@ -562,93 +600,101 @@ func childMain(args []string) int {
 		}
 		panicKey, errKey, valKey := "panic|"+d.name, "err|"+d.name, "val|"+d.name
 		for mi, mu := range muts {
-			m := struct {
-				kind string
-				data []byte
-			}{mu.kind, nil}
-			if j > fromJ || (unit+len(lims)) > fromUnit {
-				m.data = mu.make()
-			}
-			wroteData := false
-			for li, lmt := range lims {
-				unit++
-				if j == fromJ && unit <= fromUnit {
-					continue
+			violated := make([]bool, len(lims)) // ladder: a smaller step already over-allocated at this limit
+			for _, mkData := range mu.steps {
+				m := struct {
+					kind string
+					data []byte
+				}{mu.kind, nil}
+				if j > fromJ || (unit+len(lims)) > fromUnit {
+					m.data = mkData()
 				}
-				if !wroteData {
-					inf.WriteAt(m.data, hdrLen)
-					wroteData = true
-				}
-				h := hdr[:0]
-				for _, x := range [5]int{j, unit, lmt, len(m.data), mi} {
-					h = strconv.AppendInt(h, int64(x), 10)
+				wroteData := false
+				for li, lmt := range lims {
+					unit++
+					if j == fromJ && unit <= fromUnit {
+						continue
+					}
+					if mu.ladder && violated[li] {
+						rec.Counters["skip|ladder-step-after-overalloc"]++
+						continue
+					}
+					if !wroteData {
+						inf.WriteAt(m.data, hdrLen)
+						wroteData = true
+					}
+					h := hdr[:0]
+					for _, x := range [5]int{j, unit, lmt, len(m.data), mi} {
+						h = strconv.AppendInt(h, int64(x), 10)
+						h = append(h, ' ')
+					}
+					h = append(h, m.kind...)
 					h = append(h, ' ')
-				}
-				h = append(h, m.kind...)
-				h = append(h, ' ')
-				h = append(h, d.name...)
-				for len(h) < hdrLen-1 {
-					h = append(h, ' ')
-				}
-				h = append(h, '\n')
-				inf.WriteAt(h[:hdrLen], 0)
-				var derr error
-				runtime.ReadMemStats(&ms1)
-				pi := protect(func() { derr = d.dec(m.data, lmt) })
-				runtime.ReadMemStats(&ms2)
-				delta := ms2.TotalAlloc - ms1.TotalAlloc
-				rec.Counters[inKey[li]]++
-				rec.Counters[mutKey(m.kind)]++
-				mk := func(key, what string) robustViol {
-					in := m.data
-					if len(in) > 2048 {
-						in = in[:2048]
+					h = append(h, d.name...)
+					for len(h) < hdrLen-1 {
+						h = append(h, ' ')
 					}
-					return robustViol{Key: key, What: what, Decoder: d.name, Limit: lmt, Mutant: m.kind, Group: g, Unit: unit, Input: hex.EncodeToString(in), InputLn: len(m.data)}
-				}
-				if pi != nil {
-					rec.Counters[panicKey]++
-					v := mk("robust/"+d.name+"/panic/"+pi.Site, fmt.Sprintf("%s panicked on a %d-byte input (%s): %s", d.name, len(m.data), m.kind, pi.Value))
-					v.Panic, v.Stack = pi.Value, pi.Stack
-					if len(v.Stack) > 3000 {
-						v.Stack = v.Stack[:3000]
+					h = append(h, '\n')
+					inf.WriteAt(h[:hdrLen], 0)
+					var derr error
+					runtime.ReadMemStats(&ms1)
+					pi := protect(func() { derr = d.dec(m.data, lmt) })
+					runtime.ReadMemStats(&ms2)
+					delta := ms2.TotalAlloc - ms1.TotalAlloc
+					rec.Counters[inKey[li]]++
+					rec.Counters[mutKey(m.kind)]++
+					mk := func(key, what string) robustViol {
+						in := m.data
+						if len(in) > 2048 {
+							in = in[:2048]
+						}
+						return robustViol{Key: key, What: what, Decoder: d.name, Limit: lmt, Mutant: m.kind, Group: g, Unit: unit, Input: hex.EncodeToString(in), InputLn: len(m.data)}
 					}
-					rec.Viols = appendViol(rec.Viols, v)
-					continue
-				}
-				if derr != nil {
-					rec.Counters[errKey]++
-				} else {
-					rec.Counters[valKey]++
-				}
-				bnd := allocBound(d, lmt, len(m.data))
-				if ratio := float64(delta) / float64(bnd); ratio > rec.MaxRatio[d.name] {
-					rec.MaxRatio[d.name] = ratio
-				}
-				if delta > 256<<20 {
-					needRestart = true // checked after this unit's verdicts
-				}
-				if b := bnd; delta > b {
-					rec.Counters["overalloc|"+d.name]++
-					lclass := "caller-limit"
-					if d.limKind == limFixed {
-						lclass = "built-in-limit"
-					} else if d.limKind == limNone {
-						lclass = "no-limit"
+					if pi != nil {
+						rec.Counters[panicKey]++
+						v := mk("robust/"+d.name+"/panic/"+pi.Site, fmt.Sprintf("%s panicked on a %d-byte input (%s): %s", d.name, len(m.data), m.kind, pi.Value))
+						v.Panic, v.Stack = pi.Value, pi.Stack
+						if len(v.Stack) > 3000 {
+							v.Stack = v.Stack[:3000]
+						}
+						rec.Viols = appendViol(rec.Viols, v)
+						continue
 					}
-					v := mk("robust/"+d.name+"/alloc-over-bound/"+lclass, fmt.Sprintf("%s allocated %d bytes decoding a %d-byte input with limit %d (bound %d)", d.name, delta, len(m.data), lmt, b))
-					v.Alloc, v.Bound = delta, b
-					rec.Viols = appendViol(rec.Viols, v)
-				}
-				if needRestart {
-					// a huge allocation succeeded: its address space stays mapped and would make a
-					// later, innocent input hit RLIMIT_AS. Continue in a fresh process after this unit.
-					rec.Units = unit
-					b, _ := json.Marshal(rec)
-					w.Write(b)
-					w.WriteByte('\n')
-					w.Flush()
-					return 75
+					if derr != nil {
+						rec.Counters[errKey]++
+					} else {
+						rec.Counters[valKey]++
+					}
+					bnd := allocBound(d, lmt, len(m.data))
+					if ratio := float64(delta) / float64(bnd); ratio > rec.MaxRatio[d.name] {
+						rec.MaxRatio[d.name] = ratio
+					}
+					if delta > 256<<20 {
+						needRestart = true // checked after this unit's verdicts
+					}
+					if delta > bnd {
+						violated[li] = true
+						rec.Counters["overalloc|"+d.name]++
+						lclass := "caller-limit"
+						if d.limKind == limFixed {
+							lclass = "built-in-limit"
+						} else if d.limKind == limNone {
+							lclass = "no-limit"
+						}
+						v := mk("robust/"+d.name+"/alloc-over-bound/"+lclass, fmt.Sprintf("%s allocated %d bytes decoding a %d-byte input with limit %d (bound %d)", d.name, delta, len(m.data), lmt, bnd))
+						v.Alloc, v.Bound = delta, bnd
+						rec.Viols = appendViol(rec.Viols, v)
+					}
+					if needRestart {
+						// a huge allocation succeeded: its address space stays mapped and would make a
+						// later, innocent input hit RLIMIT_AS. Continue in a fresh process after this unit.
+						rec.Units = unit
+						b, _ := json.Marshal(rec)
+						w.Write(b)
+						w.WriteByte('\n')
+						w.Flush()
+						return 75
+					}
 				}
 			}
 		}
@@ -707,6 +753,8 @@ func runRobust(nshards int) {
 		incon  string
 		restarts, unattributed int
 		ndeaths  int
+		abandoned int
+		cutGroups []int64
 		deathsBy map[string]int
 	}
 	results := make([]res, nshards)
@@ -716,6 +764,7 @@ func runRobust(nshards int) {
 		inf := filepath.Join(scratchDir, fmt.Sprintf("robust-%d.input", s))
 		fromJ, fromUnit := 0, 0
 		restarts := 0
+		deathGroup, deathsInGroup := -1, 0
 		for {
 			var stderr bytes.Buffer
 			cmd := exec.Command(self, "child", strconv.Itoa(s), strconv.Itoa(nshards), strconv.Itoa(fromJ), strconv.Itoa(fromUnit), outf, inf)
@@ -796,6 +845,17 @@ func runRobust(nshards int) {
 				break
 			}
 			fromJ, fromUnit = h.J, h.Unit // resume after the killing input
+			if h.J != deathGroup {
+				deathGroup, deathsInGroup = h.J, 0
+			}
+			deathsInGroup++
+			if deathsInGroup >= 60 {
+				// this decoder is in violation many times over already: bound the time a badly
+				// broken tree costs by skipping the rest of this one group (counted)
+				results[s].abandoned++
+				results[s].cutGroups = append(results[s].cutGroups, int64(h.J)*int64(nshards)+int64(s))
+				fromJ, fromUnit = h.J+1, 0
+			}
 		}
 		f, err := os.Open(outf)
 		if err != nil {
@@ -846,6 +906,10 @@ func runRobust(nshards int) {
 			run.Violation("robust/"+dec+"/child-death/"+reason, fmt.Sprintf("the decoding process died (%s) while %s decoded a %s input with limit %d", reason, dec, kind, lmt), d)
 		}
 		run.Count("robust_child_deaths", int64(r.ndeaths))
+		run.Count("robust_groups_cut_short_after_60_deaths", int64(r.abandoned))
+		for _, g := range r.cutGroups {
+			run.Distinct("robust_groups", fmt.Sprintf("g%d", g))
+		}
 		run.Count("robust_child_restarts_after_huge_alloc", int64(r.restarts))
 		run.Count("robust_child_oom_unattributed", int64(r.unattributed))
 		for _, rec := range r.recs {
@@ -870,6 +934,8 @@ func runRobust(nshards int) {
 					run.Count("robust_panics", v)
 				case "overalloc":
 					run.Count("robust_overalloc", v)
+				case "skip":
+					run.Count("robust_ladder_steps_skipped_after_overalloc", v)
 				}
 			}
 			for k, v := range rec.MaxRatio {
